@@ -5,7 +5,7 @@ No sc3 import.  Kinds keep the expressions inside the documented domains:
   int   integers only            flt   dyadic floats only (k/4: exact arithmetic)
   num   ints and floats mixed    bool  truth values
   list1 lists of numbers         list2 lists of lists of numbers
-  tup   Ptuple output
+  tup   Ptuple output            evt   dicts (event specifications)
 
 Numbers are small dyadic rationals so that every float operation the model and
 the library perform is exact or performed identically (same IEEE operation on
@@ -23,10 +23,15 @@ LIFT = set(os.environ.get('C13_LIFT', '').split(','))   # scratch audits only
 
 POLY = ['Pseq', 'Pser', 'Place', 'Placep', 'Plazy', 'Pn', 'Plen', 'Pdrop', 'Pstutter', 'Pswitch',
         'Pswitch1', 'Pslide']
+# round 7b: Pwalk (deterministic steps), Platch, Pwhile, Ptrace / .trace(),
+# Pvalue; Pgate (needs an input event, so it is chosen less often)
+POLY2 = ['Pwalk', 'Platch', 'Pwhile', 'Ptrace', 'Pvalue']
 NUMERIC = ['Pseries', 'Pgeom', 'Pdiff', 'Pconst', 'Pwrap', 'Pcollect',
            'Pselect', 'Preject', 'Pif', 'Punop', 'Pbinop', 'Pnarop',
            'Pseed', 'Pfuncn', 'Prout', 'Pfunc', 'PfuncnI', 'ProutI', 'PcollectI',
-           'PlazyI']
+           'PlazyI', 'Pprorate', 'Pproduct', 'Pgen', 'Pseed']
+EVT_LITS = [{'a': 1}, {'a': 2, 'b': 0.5}, {'b': -1}, {'k': 9}, {'g': True, 'a': 3},
+            {}, {'a': [1, 2]}]
 
 
 class Gen:
@@ -34,6 +39,8 @@ class Gen:
         self.r = rng
         self.max_depth = max_depth
         self.exact = 0      # >0: below a wrap/mod/Pconst: dyadic values only
+        self.noinval = 0    # >0: below a decorator-made pattern, whose arguments
+                            # are pulled without input value: no Pgate there
 
     def gx(self, kind, d):
         """sub-expression whose values must be dyadic (no float random leaf):
@@ -63,6 +70,8 @@ class Gen:
                     for _ in range(r.randint(1, 3))]
         if kind == 'tup':
             return [self.lit('num') for _ in range(2)]
+        if kind == 'evt':
+            return dict(r.choice(EVT_LITS))
         raise ValueError(kind)
 
     def repeats(self, lo=0, hi=3, pinf=0.12):
@@ -133,7 +142,9 @@ class Gen:
         r = self.r
         if d <= 0:
             return self.base(kind)
-        cands = list(POLY)
+        cands = list(POLY) + POLY2
+        if r.random() < 0.3 and not self.noinval:
+            cands.append('Pgate')
         if kind in ('int', 'flt', 'num'):
             cands += NUMERIC + ['Pbinop', 'Punop', 'Pif']
             if kind == 'num':
@@ -141,7 +152,8 @@ class Gen:
         elif kind == 'bool':
             cands += ['Pbinop_cmp'] * 6 + ['Pif', 'Pselect']
         elif kind == 'list1':
-            cands += ['Pclump'] * 5 + ['Pcollect_box', 'Pselect_true']
+            cands += ['Pclump'] * 5 + ['Pcollect_box', 'Pselect_true',
+                                       'Pproduct_list', 'Pproduct_list']
         elif kind == 'list2':
             cands += ['Pclump'] * 5
         elif kind == 'tup':
@@ -441,7 +453,9 @@ class Gen:
         c = r.random()
         if self.exact and k == 'flt':
             c = 0.4 + c * 0.5       # choose among the list based leaves only
-        if c < 0.4:
+        if r.random() < 0.4:
+            spec = self.new_rand_spec(k)
+        elif c < 0.4:
             if k == 'int':
                 lo = r.randint(-3, 2); hi = lo + r.randint(1, 9)
             else:
@@ -474,6 +488,161 @@ class Gen:
                     r.randint(1, 2), 0)
         return ('Pseed', seed, spec)
 
+
+    # round 7b ---------------------------------------------------------------
+    def mk_Pwalk(self, kind, d):
+        r = self.r
+        items = self.items(kind, d, 1, 5)
+        ints = [-2, -1, 0, 1, 1, 2, 2, 3]
+        c = r.random()
+        if c < 0.4:
+            steps = r.choice([1, 2, 3, 1, 2, -1, 1, 2, 3, 4, 1, 2, -1, -2, 0])
+        elif c < 0.8:
+            steps = ('Pseq', [r.choice(ints) for _ in range(r.randint(1, 4))], INF, 0)
+        elif c < 0.9:
+            vals = [r.choice(ints) for _ in range(r.randint(1, 4))]
+            steps = ('Pser', vals, INF, r.randrange(len(vals)))
+        else:
+            steps = ('Pn', self.g('int', d - 1), INF)
+        c = r.random()
+        if c < 0.35:
+            dirs = OMIT if r.random() < 0.5 else 1
+        elif c < 0.45:
+            dirs = -1
+        else:
+            dirs = ('Pseq', [r.choice([1, -1]) for _ in range(r.randint(1, 4))], INF, 0)
+        return ('Pwalk', items, steps, dirs, r.randrange(len(items)))
+
+    def trig(self, d):
+        r = self.r
+        c = r.random()
+        if c < 0.15:
+            return r.choice([True, False, 1, 0])
+        if c < 0.7:
+            return ('Pseq', [r.choice([True, False, False, 1, 0])
+                             for _ in range(r.randint(1, 5))],
+                    self.repeats(1, 4, 0.4), 0)
+        return self.g('bool', d - 1)
+
+    def mk_Platch(self, kind, d):
+        return ('Platch', self.g(self.subkind(kind), d - 1), self.trig(d))
+
+    def mk_Pwhile(self, kind, d):
+        r = self.r
+        op = r.choice(['lt', 'ge', 'lt', 'ge', 'always', 'never'])
+        return ('Pwhile', op, r.choice([-3, 0, 1, 4, 6, 8, 2.5]),
+                self.g(self.subkind(kind), d - 1))
+
+    def mk_Ptrace(self, kind, d):
+        return ('Ptrace', self.r.choice(['ctor', 'meth', 'prefix']),
+                self.g(self.subkind(kind), d - 1))
+
+    def mk_Pvalue(self, kind, d):
+        return ('Pvalue', self.item(kind, d))
+
+    def mk_Pgate(self, kind, d):
+        return ('Pgate', self.g(self.subkind(kind), d - 1), self.repeats(0, 3, 0.2), 'g')
+
+    def mk_Pprorate(self, kind, d):
+        r = self.r
+        k = self.nk(kind)
+        props = [0, 1, 2, -1] if k == 'int' else [0.0, 0.25, 0.5, 0.75, 1.0, 1.5]
+        def one():
+            if r.random() < 0.35:
+                return [r.choice(props) for _ in range(r.randint(0, 3))]
+            return r.choice(props)
+        if r.random() < 0.5:
+            prop = r.choice(props)
+        else:
+            prop = ('Pseq', [one() for _ in range(r.randint(1, 3))],
+                    self.repeats(1, 4, 0.5), 0)
+        return ('Pprorate', self.g(k, d - 1), prop)
+
+    def product_items(self, k, d):
+        r = self.r
+        items = []
+        for _ in range(r.randint(1, 3)):
+            c = r.random()
+            if c < 0.5 or d <= 1:
+                items.append(self.base(k))
+            elif c < 0.93:
+                items.append(self.g(k, d - 1))
+            else:
+                items.append(self.lit(k))       # a number: an infinite stream
+        return items
+
+    def mk_Pproduct(self, kind, d):
+        k = self.nk(kind)
+        return ('Pproduct', self.r.choice(['sum', 'dot']), self.product_items(k, d))
+
+    def mk_Pproduct_list(self, kind, d):
+        return ('Pproduct', self.r.choice([None] + ['list'] * 5),
+                self.product_items(self.r.choice(['int', 'flt', 'num']), d))
+
+    def mk_Pgen(self, kind, d):
+        k = self.nk(kind)
+        self.noinval += 1
+        try:
+            node = ('Pgen', self.r.choice(['protocol', 'plain', 'kwargs']),
+                    self.operand(k, d, 0.3), self.operand(k, d, 0.4),
+                    self.r.choice([0, 1, 2, 3, 5, 8, 70]))
+        finally:
+            self.noinval -= 1
+        if self.r.random() < 0.3:
+            # followed by a pattern that computes with the input value
+            return ('Pseq', [node, self.mk_PfuncnI(k, d)], self.repeats(1, 2, 0.05), 0)
+        return node
+
+    def new_rand_spec(self, k):
+        """random leaves of round 7b (value patterns with documented ranges,
+        Pfsm with one item per state)"""
+        r = self.r
+        n = r.randint(1, 5)
+        if k == 'int':
+            lo = r.randint(-3, 2); hi = lo + r.randint(1, 9)
+            c = r.choice(['Plprand', 'Phprand', 'Ppoisson', 'Pfsm', 'Pfsm'])
+            if c == 'Ppoisson':
+                return ('Ppoisson', r.choice([0.5, 1, 2, 4]), n)
+            if c == 'Pfsm':
+                return self.fsm_spec(INT_LITS)
+            return (c, lo, hi, n)
+        if self.exact:
+            return self.fsm_spec(FLT_LITS)
+        lo = r.choice([-1.0, 0.0, 0.5, 2]); hi = lo + r.choice([0.5, 1.0, 3.0, 4])
+        c = r.choice(['Plprand', 'Phprand', 'Pmeanrand', 'Pbeta', 'Pcauchy', 'Pgauss',
+                      'Pexprand', 'Pgbrown', 'Pprob', 'Pfsm'])
+        if c in ('Plprand', 'Phprand', 'Pmeanrand'):
+            return (c, lo, hi, n)
+        if c == 'Pbeta':
+            return ('Pbeta', lo, hi, r.choice([1, 0.5, 2]), r.choice([1, 0.25, 3]), n)
+        if c == 'Pcauchy':
+            return ('Pcauchy', r.choice([0.0, -2.0, 1]), r.choice([1.0, 0.25]), n)
+        if c == 'Pgauss':
+            return ('Pgauss', r.choice([0.0, 3.0, -1]), r.choice([1, 0.5, 2.0]), n)
+        if c == 'Pexprand':
+            return ('Pexprand', r.choice([0.0001, 0.5, 1]), r.choice([1.5, 2.0, 100]), n)
+        if c == 'Pgbrown':
+            return ('Pgbrown', r.choice([0.5, 1.0]), r.choice([2.0, 8.0]),
+                    r.choice([0.125, 0.5]), n)
+        if c == 'Pprob':
+            return ('Pprob', [r.choice([0, 1, 2, 0.5]) for _ in range(r.randint(2, 6))] + [1],
+                    lo, hi, n)
+        return self.fsm_spec(FLT_LITS)
+
+    def fsm_spec(self, lits):
+        """('Pfsm', [entry states, item, next states, ..., None, None], repeats):
+        distinct items; every state can go to the terminal state"""
+        r = self.r
+        ns = r.randint(1, 4)
+        items = r.sample(lits, ns)
+        lst = [[r.randrange(ns) for _ in range(r.randint(1, 3))]]
+        for i in range(ns):
+            nxt = [r.randrange(ns) for _ in range(r.randint(0, 3))] + [ns]
+            r.shuffle(nxt)
+            lst += [items[i], nxt]
+        lst += [None, None]
+        return ('Pfsm', lst, r.randint(1, 3))
+
     # list kinds -----------------------------------------------------------------
     def mk_Pclump(self, kind, d):
         src = self.g('num' if kind == 'list1' else 'list1', d - 1)
@@ -492,8 +661,8 @@ class Gen:
 
 def gen_expr(rng, max_depth=5):
     g = Gen(rng, max_depth)
-    kind = rng.choices(['int', 'flt', 'num', 'bool', 'list1', 'list2', 'tup'],
-                       [5, 4, 4, 1.5, 1.5, 0.7, 1.2])[0]
+    kind = rng.choices(['int', 'flt', 'num', 'bool', 'list1', 'list2', 'tup', 'evt'],
+                       [5, 4, 4, 1.5, 1.5, 0.7, 1.2, 0.8])[0]
     d = rng.choices([1, 2, 3, 4, 5], [1, 3, 4, 3, 2])[0]
     d = min(d, max_depth)
     return kind, g.g(kind, d)
@@ -517,6 +686,27 @@ def classes(node):
         if name == 'Pseed':
             out.append('rand:' + n[2][0])
     return out
+
+
+def _has_dict(x):
+    if isinstance(x, dict):
+        return True
+    if isinstance(x, list):
+        return any(_has_dict(i) for i in x)
+    return False
+
+
+def needs(node):
+    """(needs an input event with a gate entry, has dict items): decides which
+    input values the case may be driven with."""
+    from vf.model_patterns import walk
+    gate = dicts = False
+    for n in walk(node):
+        if n[0] == 'Pgate':
+            gate = True
+        if n[0] != 'Pseed' and any(_has_dict(a) for a in n[1:] if not isnode(a)):
+            dicts = True
+    return gate, dicts
 
 
 def show(x):
